@@ -175,6 +175,9 @@ pub struct KeyModel {
     pub floor_by_clear: bool,
     /// event sequence number of the last remove / clear of the key
     pub removed_at: u64,
+    /// a wrong version of this key has already been reported; the same wrong version coming back again (it is now
+    /// cached in memory) is a consequence, not a new violation. Reset by the next write / removal of the key.
+    pub reported_wrong: Option<u32>,
 }
 
 #[derive(Clone, Debug, Default)]
@@ -182,6 +185,8 @@ pub struct VerInfo {
     pub len: usize,
     pub loc: u8,
     pub class: u32,
+    /// invoke sequence number of the client operation that wrote this version
+    pub written_inv: u64,
 }
 
 #[derive(Default)]
@@ -201,6 +206,12 @@ pub struct HybState {
     pub last_leave: BTreeMap<(usize, u64), u32>,
     /// hand-offs to the disk tier attributed to versions: (key, version, engine sequence, task)
     pub handoffs: Vec<(u64, u32, u64, u64)>,
+    /// event time of each hand-off (parallel to `handoffs`)
+    pub handoff_at: Vec<u64>,
+    /// (key, version) the client is currently writing (attribution of write-on-insertion hand-offs)
+    pub cur_write: Option<(u64, u32)>,
+    /// version counter value at the first explicit close() since the last (re)open
+    pub close_ver: Option<u32>,
 }
 
 thread_local! {
@@ -252,8 +263,14 @@ fn on_foyer_event(kind: &'static str, a: u64, b: u64) {
                 let task = shuttle::current::get_current_task().map(usize::from).unwrap_or(usize::MAX);
                 let keys: Vec<u64> = s.model.keys().copied().filter(|k| hash_of(hmode, *k) == a).collect();
                 for k in keys {
-                    if let Some(v) = s.last_leave.get(&(task, k)).copied() {
+                    if let Some(v) = s.last_leave.remove(&(task, k)) {
                         s.handoffs.push((k, v, b, task as u64));
+                        s.handoff_at.push(now);
+                    } else if let Some((ck, cv)) = s.cur_write {
+                        if ck == k {
+                            s.handoffs.push((k, cv, b, task as u64));
+                            s.handoff_at.push(now);
+                        }
                     }
                 }
                 for (k, m) in s.model.iter_mut() {
@@ -263,6 +280,9 @@ fn on_foyer_event(kind: &'static str, a: u64, b: u64) {
                     }
                 }
             });
+        }
+        "submitted" => {
+            hist::ev("submitted", a, b, 0);
         }
         "skip_young" => {
             hist::ev("skip_young", a, 0, 0);
@@ -366,6 +386,7 @@ pub fn new_ctl(case: &Case) -> Ctl {
     let filter = Arc::new(FilterCtl::default());
     filter.reject_mod.store(case.get("reject_mod").max(0) as u32, Ordering::Relaxed);
     filter.reinsert_mod.store(case.get("reinsert_mod").max(0) as u32, Ordering::Relaxed);
+    filter.admission_mode.store(case.get("admit_mode").max(0) as u32, Ordering::Relaxed);
     Ctl { filter, holder: Holder::default(), flush_switch: Switch::default() }
 }
 
@@ -414,6 +435,19 @@ pub fn judge(case: &Case, k: u64, bytes: &[u8], via: &str) -> Res {
                 hist::probe("stale_excused_by_shed");
                 return Res::hit(k, ver, len as u32, 1);
             }
+            // freshness is the subject of C01 / C09 / C17 only; other properties run their own oracles on the result
+            if !matches!(prop, "C01" | "C09" | "C17") {
+                return Res { tag: Res::HIT, key: k, ver, w: len as u32, aux: 2 };
+            }
+            if km.reported_wrong == Some(ver) {
+                hist::probe("repeat_of_reported_wrong_version");
+                return Res { tag: Res::BAD, key: k, ver, ..Default::default() };
+            }
+            ST.with(|s| {
+                if let Some(m) = s.borrow_mut().model.get_mut(&k) {
+                    m.reported_wrong = Some(ver);
+                }
+            });
             let (rule, what) = if ver < km.floor { ("removed-value", "a removed / cleared value") } else { ("stale-value", "an older version") };
             shape.push(("oversize_current", km.oversize_shed.to_string()));
             shape.push(("key_class", key_class(case, k).to_string()));
@@ -437,6 +471,61 @@ pub fn judge(case: &Case, k: u64, bytes: &[u8], via: &str) -> Res {
                     });
                 shape.push(("handoff_during_or_after_removal", late.to_string()));
             }
+            if ver >= km.floor {
+                // did a delayed background hand-off of this older version get a higher engine sequence than the
+                // hand-off of the current version?
+                let client_task = shuttle::current::get_current_task().map(usize::from).unwrap_or(usize::MAX) as u64;
+                let cur_written_inv = km.cur.and_then(|c| km.versions.get(&c)).map(|v| v.written_inv).unwrap_or(u64::MAX);
+                let overtook = ST.with(|s| {
+                    let s = s.borrow();
+                    s.handoffs
+                        .iter()
+                        .zip(s.handoff_at.iter())
+                        .any(|((hk, hv, _, t), at)| *hk == k && *hv == ver && *t != client_task && *at > cur_written_inv)
+                });
+                shape.push(("racing_background_handoff_of_older_version", overtook.to_string()));
+                // is the CURRENT version in the gap between leaving memory (evicted by a background task) and
+                // entering the write queue? (the hand-off was not complete when this lookup started)
+                let read_start = OP_INV.with(|c| c.get());
+                let in_gap = km.cur.map(|cur| {
+                    let left: Option<u64> = hist::with_events(|evs| {
+                        evs.iter()
+                            .rev()
+                            .find(|e| e.kind == "mem_leave" && e.a == 0 && e.b == k && e.c == cur as u64 && e.task as u64 != client_task)
+                            .map(|e| e.seq)
+                    });
+                    match left {
+                        Some(l) => ST.with(|s| {
+                            let s = s.borrow();
+                            !s.handoffs.iter().zip(s.handoff_at.iter()).any(|((hk, hv, _, _), at)| *hk == k && *hv == cur && *at > l && *at < read_start)
+                        }),
+                        None => false,
+                    }
+                });
+                shape.push(("current_version_handoff_in_flight", in_gap.unwrap_or(false).to_string()));
+                if restarts > 0 {
+                    shape.push(("sequence_regression_in_a_block", crate::hyboracle::block_has_sequence_regression(case).to_string()));
+                }
+            }
+            if ver < km.floor {
+                // was some entry of this key's hash written twice under the same sequence (i.e. re-inserted by a
+                // reclaim)? a re-insertion that races the removal re-indexes the removed entry
+                let h = hash_of(case.get("hmode") as u8, k);
+                let reinserted = {
+                    let ws = crate::hyboracle::entry_writes();
+                    let mut seen = std::collections::BTreeMap::new();
+                    for w in ws.iter().filter(|w| w.hash == h) {
+                        *seen.entry(w.sequence).or_insert(0) += 1;
+                    }
+                    seen.values().any(|c| *c >= 2)
+                };
+                shape.push(("entry_of_key_was_reinserted", reinserted.to_string()));
+            }
+            if restarts > 0 && case.get("tomb") != 0 {
+                let h = hash_of(case.get("hmode") as u8, k);
+                let lost = crate::hyboracle::tombstones_lost().iter().any(|(th, _)| *th == h);
+                shape.push(("tombstone_of_key_lost_in_log", lost.to_string()));
+            }
             hist::violation(
                 prop,
                 rule,
@@ -453,7 +542,8 @@ fn model_write(k: u64, ver: u32, len: usize, loc: u8, class: u32) {
         let mut s = s.borrow_mut();
         let m = s.model.entry(k).or_default();
         m.cur = Some(ver);
-        m.versions.insert(ver, VerInfo { len, loc, class });
+        m.reported_wrong = None;
+        m.versions.insert(ver, VerInfo { len, loc, class, written_inv: OP_INV.with(|c| c.get()) });
     });
 }
 
@@ -467,6 +557,7 @@ fn model_remove(k: u64) {
         m.shed = false;
         m.oversize_shed = false;
         m.floor_by_clear = false;
+        m.reported_wrong = None;
         m.removed_at = OP_INV.with(|c| c.get());
     });
 }
@@ -482,6 +573,7 @@ fn model_clear() {
             m.shed = false;
             m.oversize_shed = false;
             m.floor_by_clear = true;
+            m.reported_wrong = None;
             m.removed_at = now;
         }
     });
@@ -539,6 +631,10 @@ impl Hyb {
             }
             drop(c);
         }
+        if graceful {
+            // trailing flushes (e.g. the waits a reclaim leaves behind) finish before the runtime goes away
+            simdev::quiesce().await;
+        }
         runtime_shutdown().await;
         Spawner::verif_reset();
     }
@@ -571,6 +667,7 @@ impl Hyb {
                 let ver = fresh_ver();
                 let len = value_len(&self.g, *w, ver);
                 let v = make_value(*k, ver, len, case.get("comp") != 0 && ver % 2 == 0);
+                ST.with(|s| s.borrow_mut().cur_write = Some((*k, ver)));
                 let e = if *loc == 0 && ver % 2 == 0 {
                     cache.insert(*k, v)
                 } else {
@@ -583,6 +680,10 @@ impl Hyb {
                 } else {
                     drop(e);
                 }
+                ST.with(|s| s.borrow_mut().cur_write = None);
+                if *loc == 2 {
+                    hist::ev("h_ondisk_resident", *k, ver as u64, cache.memory().contains(k) as u64);
+                }
                 Res::hit(*k, ver, len as u32, 0)
             }
             Op::WriterInsert { k, w, force, .. } => {
@@ -591,10 +692,13 @@ impl Hyb {
                 let v = make_value(*k, ver, len, false);
                 let wr = cache.storage_writer(*k);
                 let wr = if *force { wr.force() } else { wr };
-                match wr.insert(v) {
+                ST.with(|s| s.borrow_mut().cur_write = Some((*k, ver)));
+                let r = wr.insert(v);
+                match r {
                     Some(e) => {
                         // the entry is handed to the disk tier when the returned handle is dropped
                         drop(e);
+                        ST.with(|s| s.borrow_mut().cur_write = None);
                         model_write(*k, ver, len, 2, *w);
                         hist::ev("h_insert", *k, ver as u64, 2);
                         Res::hit(*k, ver, len as u32, 0)
@@ -606,7 +710,10 @@ impl Hyb {
                 Ok(Some(e)) => {
                     let r = judge(&case, *k, e.value(), "get");
                     note_source(*k, e.source());
-                    hist::ev("h_get", *k, r.ver as u64, src(e.source()));
+                    hist::ev("h_get", *k, r.ver as u64, src(e.source()) | (age_of(&e) << 8));
+                    if age_of(&e) == 2 {
+                        hist::probe("loaded_age_old");
+                    }
                     if *hold {
                         self.held.push(e);
                     }
@@ -643,6 +750,7 @@ impl Hyb {
                         }
                     };
                     hist::ev("origin_done", kk, ver as u64, 0);
+                    ST.with(|s| s.borrow_mut().cur_write = Some((kk, ver)));
                     // the fetched entry carries the placement advice of its key's class (advice never alternates)
                     Ok((make_value(kk, ver, len, false), HybridCacheProperties::default().with_location(loc_of(kloc))))
                 });
@@ -650,7 +758,7 @@ impl Hyb {
                     Ok(e) => {
                         let r = judge(&case, *k, e.value(), "get_or_fetch");
                         let s = src(e.source());
-                        hist::ev("h_fetch", *k, r.ver as u64, s);
+                        hist::ev("h_fetch", *k, r.ver as u64, s | (age_of(&e) << 8));
                         if *hold {
                             self.held.push(e);
                         }
@@ -695,6 +803,20 @@ impl Hyb {
                 Res::unit()
             }
             Op::Close => {
+                let keys = case.get("keys").max(1) as u64 + case.get("fresh_keys").max(0) as u64;
+                let first_close = ST.with(|s| s.borrow().close_ver.is_none());
+                if first_close {
+                    for k in 0..keys {
+                        if cache.memory().contains(&k) {
+                            let cur = ST.with(|s| s.borrow().model.get(&k).and_then(|m| m.cur)).unwrap_or(0);
+                            hist::ev("resident_at_close", k, cur as u64, 0);
+                        }
+                    }
+                    ST.with(|s| {
+                        let mut s = s.borrow_mut();
+                        s.close_ver = Some(s.next_ver);
+                    });
+                }
                 hist::ev("close_inv", 0, 0, 0);
                 let r = cache.close().await;
                 hist::ev("close_ret", 0, 0, 0);
@@ -707,6 +829,18 @@ impl Hyb {
             Op::Reopen => {
                 drop(cache);
                 self.shutdown(true).await;
+                // writes issued after an explicit close() were ignored by the disk tier: they do not survive
+                ST.with(|s| {
+                    let mut s = s.borrow_mut();
+                    if let Some(cv) = s.close_ver.take() {
+                        for m in s.model.values_mut() {
+                            if m.cur.map(|v| v > cv).unwrap_or(false) {
+                                m.cur = None;
+                                m.floor = m.floor.max(cv + 1);
+                            }
+                        }
+                    }
+                });
                 Res::boolean(self.reopen().await)
             }
             Op::DropHandle { idx } => {
@@ -742,12 +876,69 @@ impl Hyb {
                             self.ctl.holder.unhold()
                         }
                     }
+                    // held fetch: disk loads are held while a get_or_fetch of key `arg` is in flight; the origin must
+                    // not start before the disk lookup has resolved
+                    20 => {
+                        let kk = *arg;
+                        self.ctl.holder.hold();
+                        hist::ev("held_fetch_start", kk, 0, 0);
+                        let g = self.g.clone();
+                        let kloc = key_class(&case, kk);
+                        let fut = cache.get_or_fetch(&kk, move || async move {
+                            hist::ev("origin_start", kk, 0, 0);
+                            let cur = ST.with(|s| s.borrow().model.get(&kk).and_then(|m| m.cur.map(|v| (v, m.versions[&v].len))));
+                            let (ver, len) = match cur {
+                                Some(x) => x,
+                                None => {
+                                    let ver = fresh_ver();
+                                    let len = value_len(&g, 1, ver);
+                                    model_write(kk, ver, len, kloc, 1);
+                                    (ver, len)
+                                }
+                            };
+                            hist::ev("origin_done", kk, ver as u64, 0);
+                            ST.with(|s| s.borrow_mut().cur_write = Some((kk, ver)));
+                            Ok::<_, anyhow::Error>((make_value(kk, ver, len, false), HybridCacheProperties::default().with_location(loc_of(kloc))))
+                        });
+                        let mut fut = Box::pin(fut);
+                        let mut done = None;
+                        for _ in 0..6 {
+                            if let std::task::Poll::Ready(r) = std::future::poll_fn(|cx| std::task::Poll::Ready(std::future::Future::poll(fut.as_mut(), cx))).await {
+                                done = Some(r);
+                                break;
+                            }
+                            shuttle::future::yield_now().await;
+                        }
+                        hist::ev("held_fetch_release", kk, done.is_some() as u64, 0);
+                        self.ctl.holder.unhold();
+                        let r = match done {
+                            Some(r) => r,
+                            None => fut.await,
+                        };
+                        return match r {
+                            Ok(e) => {
+                                let r = judge(&case, kk, e.value(), "get_or_fetch");
+                                let s = src(e.source());
+                                hist::ev("h_fetch", kk, r.ver as u64, s | (age_of(&e) << 8));
+                                Res { aux: s, ..r }
+                            }
+                            Err(e) => Res::err(crate::memscn::err_kind(&e)),
+                        };
+                    }
                     _ => {}
                 }
                 Res::unit()
             }
             _ => Res::unit(),
         }
+    }
+}
+
+pub fn age_of(e: &HEntry) -> u64 {
+    match e.properties().age() {
+        foyer::Age::Fresh => 0,
+        foyer::Age::Young => 1,
+        foyer::Age::Old => 2,
     }
 }
 
@@ -818,5 +1009,4 @@ pub fn oracle(case: &Case) {
 }
 
 // re-exports for the oracle module
-pub use parser::PAGE as PARSER_PAGE;
 pub type Keys = BTreeSet<u64>;
